@@ -53,10 +53,10 @@ def rand_value(r, dt):
     if dt == 'uint':
         return r.choice([0, 1, 2**64 - 1, r.randint(0, 10**12)])
     if dt == 'float':
-        return r.choice([0.0, -0.0, 1.5, -2.5e300, 5e-324, r.uniform(-1e6, 1e6), 3])
+        return r.choice([0.0, -0.0, 0.0, -0.0, 1.5, -2.5e300, 5e-324, r.uniform(-1e6, 1e6), 3, 1, 1.0])
     if dt == 'bool':
         return r.random() < 0.5
-    return r.choice([None, 0, '', 'x', [1, 2], {'a': 1}, [], False, 7.5, [None]])
+    return r.choice([None, 0, '', 'x', [1, 2], {'a': 1}, [], False, 7.5, [None], 1, 1.0, True, 0.0, -0.0, 1, 1.0, True, [1], [1.0], [True]])
 
 
 def rand_map_key(r):
